@@ -236,10 +236,7 @@ func init() {
 			msg := e.sprintf(a[0].(Str), a[1].(Slice))
 			return e.callFn(e.prog.ImportedPackage("errors").Func("New"), []Value{msg}, nil)
 		},
-		"time.Date": func(e *Exec, a []Value) Value { return Native{"time.Date"} },
 		"math/rand.Seed": func(e *Exec, a []Value) Value { return nil },
-		"time.Now":       func(e *Exec, a []Value) Value { return Native{"time.Now"} },
-		"(time.Time).Unix": func(e *Exec, a []Value) Value { return Const(64, 0) },
 		"log.New":        func(e *Exec, a []Value) Value { return Ptr{o: globalObj, slot: &[]Value{Native{"logger"}}[0]} },
 		"reflect.TypeOf": func(e *Exec, a []Value) Value {
 			it := a[0].(Iface)
